@@ -154,8 +154,8 @@ def prop_graph(rec):
                     raise HarnessError('reference ninja: ' + r.err[-500:])
                 return r, ex
 
-            # (a) fresh default build
-            r, ex = do_build(['all'])
+            # (a) fresh default build: the tool started without a target
+            r, ex = do_build([])
             if r.rc != 0:
                 raise Violation('graph/fresh/build-failed', 'default build '
                                 'failed: {} {}'.format(r.err.strip()[-600:],
